@@ -59,6 +59,12 @@ fn programs(quick: bool) -> Vec<(Program, bool)> {
     for var in [ReadVariant::MultiGet, ReadVariant::MultiGetIterator, ReadVariant::MultiGetMapIterator] {
         v.push((mk(format!("upsert(a);delete(b)||{:?}([a,b])", var), 10, vec![put(1, 2), put(2, 2)], vec![vec![ups_v(1), del(2)], vec![Op::MultiRead { keys: vec![1, 2], variant: var }]]), false));
     }
+    // lazy iterators over a repeated key: every `next()` is a read of its own (per-element intervals), a write that
+    // completes between two of them must be seen by the later one
+    for var in [ReadVariant::MultiGetIterator, ReadVariant::MultiGetMapIterator] {
+        v.push((mk(format!("upsert(k)||{:?}([k,k,k])", var), 10, vec![put(1, 2)], vec![vec![ups_v(1)], vec![Op::MultiRead { keys: vec![1, 1, 1], variant: var }]]), false));
+        v.push((mk(format!("delete(k)||{:?}([k,k])", var), 10, vec![put(1, 2)], vec![vec![del(1)], vec![Op::MultiRead { keys: vec![1, 1], variant: var }]]), false));
+    }
     // a value-less upsert between delete(k) returning and the Delete command being executed must not revive the value
     for (name, op) in [
         ("weight-only", Op::Upsert { k: 1, value: false, w: Some(3), ttl_ms: None, remove_ttl: false }),
@@ -98,6 +104,14 @@ fn programs(quick: bool) -> Vec<(Program, bool)> {
         v.push((mk("upsert(k,value+remove-ttl);get;upsert(k,value+remove-ttl);read_all on a key without TTL".into(), 100, vec![put(1, 30)], vec![vec![vr.clone(), get(1), vr.clone(), Op::ReadAll { keys: vec![1] }]]), false));
         v.push((mk("upsert(k,value+remove-ttl) twice;read_all on a TTL key".into(), 100, vec![put_ttl(1, 30, 9000)], vec![vec![vr.clone(), get(1), vr.clone(), Op::ReadAll { keys: vec![1] }]]), false));
         v.push((mk("upsert(k,value+ttl);get;upsert(k,value+weight);get;upsert(k,value+remove-ttl);read_all".into(), 100, vec![put(1, 30)], vec![vec![vt, get(1), vw, get(1), vr, Op::ReadAll { keys: vec![1] }]]), false));
+    }
+    // an expired, unswept key: a value upsert (accepted) followed by a TTL-only upsert that revives the entry must
+    // serve the upsert's value, not the one it superseded
+    {
+        let ttl_only = Op::Upsert { k: 1, value: false, w: None, ttl_ms: Some(5000), remove_ttl: false };
+        let rm_only = Op::Upsert { k: 1, value: false, w: Some(30), ttl_ms: None, remove_ttl: true };
+        v.push((mk("clock+2s;upsert(k,value);upsert(k,ttl-only);get;read_all on an expired-unswept key".into(), 100, vec![put_ttl(1, 30, 1000)], vec![vec![adv(2000), ups_v(1), ttl_only, get(1), Op::ReadAll { keys: vec![1] }]]), false));
+        v.push((mk("clock+2s;upsert(k,value);upsert(k,remove-ttl+weight);get;read_all on an expired-unswept key".into(), 100, vec![put_ttl(1, 30, 1000)], vec![vec![adv(2000), ups_v(1), rm_only, get(1), Op::ReadAll { keys: vec![1] }]]), false));
     }
     // reference reads of a TTL key while its delete is in flight
     for var in [ReadVariant::GetRef, ReadVariant::MapGetRef] {
